@@ -34,6 +34,16 @@ from .bpf import MapFlags, MapType, create_map, lookup_elem, update_elem
 from .ebpf import Expression, FuncId, Map, MemoryDesc, fmtsize
 
 
+def possible_cpus():
+    """the number of possible CPUs: per-CPU maps have one slot for each"""
+    try:
+        with open("/sys/devices/system/cpu/possible") as fin:
+            return max(int(r.split("-")[-1])
+                       for r in fin.read().split(",")) + 1
+    except (OSError, ValueError):
+        return cpu_count()
+
+
 class ArrayGlobalVarDesc(MemoryDesc):
     def __init__(self, map, fmt):
         self.map = map
@@ -219,7 +229,7 @@ class PerCPUArrayMap(ArrayMap):
         return PerCPUVarDesc(self, fmt)
 
     def create_map(self, ebpf, fd):
-        self.cpu_no = cpu_count()
+        self.cpu_no = possible_cpus()
         if fd is None:
             fd = create_map(MapType.PERCPU_ARRAY, 4, self.size, 1)
         setattr(ebpf, self.name, PerCPUReader(self, fd))
